@@ -455,12 +455,21 @@ var solvers = []solverSpec{
 	{"cvc5-1.0", func(f string, s int) []string {
 		return []string{"cvc5", fmt.Sprintf("--tlimit=%d", s*1000), "--full-saturate-quant", f}
 	}},
+	// cvc5 with its default (E-matching only) quantifier strategy: decides some goals in
+	// milliseconds on which the saturating strategy above and both z3 versions time out
+	{"cvc5-1.0-ematch", func(f string, s int) []string {
+		return []string{"cvc5", fmt.Sprintf("--tlimit=%d", s*1000), f}
+	}},
 }
 
 var workDir string
 
 func runSolver(sp solverSpec, file string, secs int) (status, out string, dur float64) {
-	ctx, cancel := context.WithTimeout(context.Background(), time.Duration(secs+2)*time.Second)
+	return runSolverCtx(context.Background(), sp, file, secs)
+}
+
+func runSolverCtx(parent context.Context, sp solverSpec, file string, secs int) (status, out string, dur float64) {
+	ctx, cancel := context.WithTimeout(parent, time.Duration(secs+2)*time.Second)
 	defer cancel()
 	argv := sp.argv(file, secs)
 	cmd := exec.CommandContext(ctx, argv[0], argv[1:]...)
@@ -516,8 +525,10 @@ func solveVC(vc *VC, idx int, secs int, mode string) {
 		st, out, name string
 		d             float64
 	}
+	race, stopRace := context.WithCancel(context.Background())
+	defer stopRace()
 	try := func(sp solverSpec, s int) res {
-		st, out, d := runSolver(sp, file, s)
+		st, out, d := runSolverCtx(race, sp, file, s)
 		return res{st, out, sp.name, d}
 	}
 	conclusive := func(s string) bool { return s == "unsat" || s == "sat" }
@@ -538,7 +549,7 @@ func solveVC(vc *VC, idx int, secs int, mode string) {
 		r := try(solvers[0], first)
 		all = append(all, r)
 		if r.st != want && mode != "quick1" {
-			ch := make(chan res, 3)
+			ch := make(chan res, len(solvers))
 			n := 0
 			for i, sp := range solvers {
 				if i == 0 && first == secs {
@@ -548,7 +559,12 @@ func solveVC(vc *VC, idx int, secs int, mode string) {
 				go func(sp solverSpec) { ch <- try(sp, secs) }(sp)
 			}
 			for i := 0; i < n; i++ {
-				all = append(all, <-ch)
+				r := <-ch
+				all = append(all, r)
+				if r.st == want {
+					stopRace() // the others are killed; their (interrupted) answers are not needed
+					break
+				}
 			}
 		}
 	}
